@@ -9,6 +9,7 @@ git apply "$D/patch.diff"
 trap 'git -C /repo checkout -- . ; git -C /repo clean -fdq -- src precompile common 2>/dev/null' EXIT
 cd /verif
 for id in "$@"; do
+  rm -f /verif/replays/$id-*
   start=$(date +%s)
   VERIF_BUDGET_S="${VERIF_BUDGET_S:-}" ./check "$id" "${TIER:-quick}" > "$D/check-$id.log" 2>&1
   rc=$?
